@@ -85,12 +85,20 @@ def generate(src, die, coq_str):
     out.append("(* src/data_format/v0.rs *)")
     out.append("Definition V0_VERSION_BYTE : N := 0.")
     dd = re.search(r"pub fn deserialize\(serialized: &\[u8\]\) -> Result<Self, DeserializationError> \{(.*?)\n    \}", v0, re.S)
-    if not dd or re.sub(r"\s+", "", dd.group(1)) != (
-            "assert!(serialized.starts_with(&super::ADBLOCK_RUST_DAT_MAGIC));"
-            "assert!(serialized[super::ADBLOCK_RUST_DAT_MAGIC.len()]==0);"
-            "letformat:Self=rmps::decode::from_read(&serialized[super::ADBLOCK_RUST_DAT_MAGIC.len()+1..])?;"
-            "Ok(format)"):
-        die("c10_header: v0 DeserializeFormat::deserialize changed shape")
+    ddn = re.sub(r"\s+", "", re.sub(r"//[^\n]*", "", dd.group(1))) if dd else ""
+    entry = None
+    if "rmps::decode::from_read(" in ddn:
+        die("c10_header: v0 deserialize decodes with rmps::decode::from_read again: its ReadReader allocates "
+            "what a length prefix announces (finding F25, fixed by 20ac931)")
+    for fn in ("from_slice", "from_read_ref"):
+        if ddn == ("assert!(serialized.starts_with(&super::ADBLOCK_RUST_DAT_MAGIC));"
+                   "assert!(serialized[super::ADBLOCK_RUST_DAT_MAGIC.len()]==0);"
+                   "letformat:Self=rmps::decode::%s(&serialized[super::ADBLOCK_RUST_DAT_MAGIC.len()+1..])?;"
+                   "Ok(format)" % fn):
+            entry = fn
+    if entry is None:
+        die("c10_header: v0 DeserializeFormat::deserialize changed shape:\n" + ddn)
+    out.append("Definition V0_DECODER_ENTRY : string := %s.   (* rmps::decode::<this>(&serialized[MAGIC.len() + 1..]) *)" % coq_str(entry))
     out.append("Definition V0_PAYLOAD_OFFSET : nat := %d.   (* MAGIC.len() + 1 *)" % (len(magic) + 1))
 
     # field order of the wire structs (struct -> msgpack array in declaration order)
